@@ -346,6 +346,11 @@ def real_op(op, rec, pre, i, ctx):
         mod = rs.math if o in ('variance', 'stddev') else rs.math.formal
         f = mod.variance if o.endswith('variance') else mod.stddev
         return f(mk_fn(op['f']), reduce=op['reduce'])
+    if o == 'dist':
+        import distogram
+        import rx
+        return rx.pipe(rs.math.dist.update(bin_count=16, reduce=True),
+                       rs.ops.map(lambda h: (distogram.count(h),) + tuple(distogram.bounds(h))))
     if o == 'first':
         return rs.ops.first()
     if o == 'last':
